@@ -106,9 +106,9 @@ Definition research (q : query_fn) (root : obj) : res (list (path * oref)) :=
 Definition getitem (defs : table obj) (cur : obj) (seg : key) : res obj :=
   match resolve defs cur with
   | ONode _ KList items | ONode _ KTuple items =>
-      match seg with
-      | KI i => match nth_error items i with Some (_, c) => Ok c | None => Raise IndexError end
-      | _ => Raise TypeError
+      match seg_index seg with              (* cur[seg]; on TypeError: cur[int(seg)] *)
+      | Some i => match nth_error items i with Some (_, c) => Ok c | None => Raise IndexError end
+      | None => Raise TypeError
       end
   | ONode _ KDict items => match kd_get items seg with Some c => Ok c | None => Raise KeyError end
   | _ => Raise TypeError
